@@ -37,6 +37,14 @@ Proof.
   split; [exact item_by_key_plain|exact positional_is_keyword].
 Qed.
 Print Assumptions C19_companion_matching.
+(* ... but a companion of a different length that holds sub-lists of the matching length is NOT broadcast
+   (known finding c19_companion_deep_match) *)
+Theorem C19_broadcast_refuted :
+  exists (l : list val) (i n : nat), length l <> n /\ item_by_i (VList l) i n <> VList l /\
+    forall f : leaf_fun, get (wrapped f (VList [VLeaf 1; VLeaf 2]) [VList l] []) [SI i] =
+                         Some (f (VLeaf 1) [VList [VLeaf 1; VLeaf 3; VLeaf 5]] []).
+Proof. exact broadcast_refuted. Qed.
+Print Assumptions C19_broadcast_refuted.
 
 (* zipper raises ValueError iff two lengths differ and neither is 1; otherwise it yields n rows,
    row j taking element j of every length-n sequence and the single element of every scalar /
